@@ -48,7 +48,28 @@ def suite(wt, junit):
             elif ch.tag == "skipped":
                 st = "skip"
         res[tc.get("classname") + "::" + tc.get("name")] = st
-    return [s for s in b["stable_pass"] if res.get(s) != "pass"]
+    broken = [s for s in b["stable_pass"] if res.get(s) != "pass"]
+    # timing-sensitive executor tests flake under machine load: re-run what failed, in isolation
+    still = []
+    for t in broken:
+        cls, name = t.split("::", 1)
+        parts = cls.split(".")
+        node = None
+        for k in range(len(parts), 0, -1):
+            f = os.path.join(wt, *parts[:k]) + ".py"
+            if os.path.exists(f):
+                node = "/".join(parts[:k]) + ".py" + "".join("::" + x for x in parts[k:]) + "::" + name
+                break
+        ok = False
+        if node:
+            for _ in range(2):
+                r = sh(f"cd {wt} && PYTHONPATH={wt} /venv/bin/python -m pytest -q -p no:cacheprovider --timeout=900 '{node}'")
+                if r.returncode == 0:
+                    ok = True
+                    break
+        if not ok:
+            still.append(t)
+    return still
 
 
 def confirm(pid, name=None):
